@@ -1,7 +1,7 @@
 SPECIFICATION Spec
-CONSTANTS MaxH = 8
+CONSTANTS MaxH = 16
  EmitCases = FALSE
- Wide = FALSE
+ Wide = TRUE
  YPad = "right"
 INVARIANT BlockDepSafe
 CHECK_DEADLOCK FALSE
